@@ -158,7 +158,7 @@ def _inv(order, n):
 
 def _integrate_params(order, n):
     def p(mk):
-        nt = mk.int("nt")
+        nt = mk.size("nt")
         return {"time": mk.array("time", (nt,)), "signal": mk.array("signal", (nt,)), "order": order, "n": n,
                 "start_value": mk.real("start_value")}
     return p
